@@ -152,7 +152,7 @@ func runC01(w *World, r *Report) {
 				continue
 			}
 			apps := appendsFeeding(slice)
-			if len(apps) == 0 || len(isLeafTrue) == 0 {
+			if len(apps) == 0 {
 				r.bad("confirm-only-validated", "addLeafMemorized/validated-list", lineOf(w, e), "validated list must be filled by append behind the tip test", fmt.Sprintf("appends=%d isLeaf-edges=%d", len(apps), len(isLeafTrue)))
 				continue
 			}
@@ -165,9 +165,14 @@ func runC01(w *World, r *Report) {
 				for _, y := range ys {
 					ve := validateCallsFor(fn, y)
 					okAll := len(ve) > 0
-					for _, te := range isLeafTrue {
-						if !mustCrossFrom(te, ap.Block(), ve) {
+					if !behind(ap, ve) { // validated unconditionally is fine too
+						if len(isLeafTrue) == 0 {
 							okAll = false
+						}
+						for _, te := range isLeafTrue {
+							if !mustCrossFrom(te, ap.Block(), ve) {
+								okAll = false
+							}
 						}
 					}
 					r.check(okAll, "confirm-only-validated", "addLeafMemorized/append("+describeVertexSource(y)+")", lineOf(w, ap),
